@@ -4,9 +4,9 @@ CONSTANTS
   BondDenom = "aISLM"
   Lens = {0, 1, 2}
   Amts = {"1", "2"}
-  MaxLockN = 2
+  MaxLockN = 1
   MaxVestN = 1
-  Extras = {"0"}
+  Extras = {"1"}
   Fees = {"0"}
   MaxNow = 6
   Dts = {1, 2}
@@ -16,7 +16,7 @@ CONSTANTS
   Grants = {TRUE}
   Codes = {FALSE}
   KindsX <- MC_FewKinds
-  Defects = {}
+  Defects = {"convert_ignores_delegated_locked"}
 INVARIANT MInv_P
 INVARIANT MInv_Unvested
 INVARIANT MInv_NonNeg
